@@ -43,8 +43,9 @@ def scenario(args):
         if c["api"] == "txread":
             ev.append(lp.txread())
         elif c["api"] == "ctx":
-            if not tx_lite:
-                ev.append(lp.ctx())
+            if tx_lite:
+                continue                 # (rf24_lite has no context manager)
+            ev.append(lp.ctx())
         elif c["api"] == "queue":
             ev.append(lp.queue_only(c["n"]))
         elif c["api"] == "rxturn":
